@@ -86,7 +86,14 @@ def build(chk):
             I.summaries['copulas.optimize.' + rf] = uni.rootfinder_summary(rf, rf_calls)
         _, res1, _ = uni.run_fit_and_query(cls, methods=methods, constant=False, I=I)
         _, res2, _ = uni.run_fit_and_query(cls, methods=cmethods, constant=True, I=I)
-        res = res1 + res2
+
+        def earlier_constant_fit(I_, c_, m_):
+            # history: the same object was fitted before on constant data (any constant, zero included)
+            ny = Sym(ir.var('ny', 'I'))
+            c_.assume(ir.ge(ny.t, 1))
+            I_.call_method(m_, 'fit', [Lane(ir.var('c0'), ny)])
+        _, res3, _ = uni.run_fit_and_query(cls, methods=methods, constant=False, I=I, prior=earlier_constant_fit)
+        res = res1 + res2 + res3
         kc = kn = 0
         for r in res:
             if r.outcome == 'unsupported':
